@@ -1378,7 +1378,28 @@ fn resumption_with_options(rep: &mut Rep) {
             }
         }
         sim.parse_wire();
-        let pubrel_bytes: Vec<Vec<u8>> = sim.wire[base..].iter().filter(|w| matches!(&w.pkt, Ok(CPacket::Ack(a)) if a.kind == rc::AckKind::Pubrel)).map(|w| w.bytes.clone()).collect();
+        // some exchanges are carried to their end before the connection is lost: nothing of them may come back
+        let mut finished: Vec<u16> = Vec::new();
+        for (p, _) in &originals {
+            let pid = p.id.unwrap_or(0);
+            if p.qos == 2 && released.contains(&pid) && rng.chance(1, 2) {
+                sim.feed_packet(&rc::SPacket::Ack { kind: rc::AckKind::Pubcomp, id: pid, reason: 0, props: vec![], form: rc::AckForm::Short2 });
+                sim.settle();
+                finished.push(pid);
+            } else if p.qos == 1 && rng.chance(1, 3) {
+                sim.feed_packet(&rc::SPacket::Ack { kind: rc::AckKind::Puback, id: pid, reason: 0, props: vec![], form: rc::AckForm::Short2 });
+                sim.settle();
+                finished.push(pid);
+            }
+        }
+        if !finished.is_empty() {
+            rep.add("exchanges_finished_before_the_connection_was_lost", finished.len() as i64);
+        }
+        let pubrel_bytes: Vec<Vec<u8>> = sim.wire[base..]
+            .iter()
+            .filter(|w| matches!(&w.pkt, Ok(CPacket::Ack(a)) if a.kind == rc::AckKind::Pubrel && !finished.contains(&a.id)))
+            .map(|w| w.bytes.clone())
+            .collect();
         sim.set_eof();
         sim.settle();
         sim.cmd(Cmd::MarkDisconnected(1));
@@ -1403,7 +1424,7 @@ fn resumption_with_options(rep: &mut Rep) {
             continue;
         }
         let resent: Vec<WirePkt> = sim.wire[after_connect..].to_vec();
-        let want_pubs: Vec<&(rc::Publish, Vec<u8>)> = originals.iter().filter(|(p, _)| !released.contains(&p.id.unwrap_or(0))).collect();
+        let want_pubs: Vec<&(rc::Publish, Vec<u8>)> = originals.iter().filter(|(p, _)| !released.contains(&p.id.unwrap_or(0)) && !finished.contains(&p.id.unwrap_or(0))).collect();
         let got_pubs: Vec<&WirePkt> = resent.iter().filter(|w| matches!(&w.pkt, Ok(CPacket::Publish(_)) | Err(_))).collect();
         let got_rels: Vec<&WirePkt> = resent.iter().filter(|w| matches!(&w.pkt, Ok(CPacket::Ack(_)))).collect();
         for (j, (orig, obytes)) in want_pubs.iter().enumerate() {
@@ -1429,6 +1450,11 @@ fn resumption_with_options(rep: &mut Rep) {
                 }
                 _ => {}
             }
+        }
+        // nothing but the unfinished exchanges is written on the resumed connection before a new request: every packet there
+        // must be the image of a request
+        if got_pubs.len() != want_pubs.len() || got_rels.len() != pubrel_bytes.len() {
+            report(rep, format!("C01/unattributable-packet/{}/resent", if got_rels.len() > pubrel_bytes.len() { "PUBREL" } else if got_pubs.len() > want_pubs.len() { "PUBLISH" } else { "missing" }), &id, format!("{} PUBLISH and {} PUBREL exchanges were unfinished when the connection was lost ({} exchanges had been completed); the resumed connection carries {} PUBLISH and {} PUBREL packets before any new request: {:?}", want_pubs.len(), pubrel_bytes.len(), finished.len(), got_pubs.len(), got_rels.len(), resent.iter().map(|w| w.pkt.as_ref().map(|p| p.brief()).unwrap_or_else(|e| e.clone())).collect::<Vec<_>>()));
         }
         for (j, ob) in pubrel_bytes.iter().enumerate() {
             if let Some(g) = got_rels.get(j) {
